@@ -15,7 +15,8 @@ open Zutil
 let ity b s = { bits = z_of_int (int_of_string b); sgn = (s = "1") }
 
 let site_of = function
-  | "arg" -> SArg | "decl" -> SDecl | "assign" -> SAssign | "ret1" -> SRet1 | "ret2" -> SRet2
+  | "arg" -> SArg | "decl" -> SDecl | "assign" -> SAssign
+  | "massign2" | "massign3" | "mswap" | "mfield" -> SMAssign | "munpack" -> SMUnpack | "mdeclunpack" -> SDeclUnpack | "ret1" -> SRet1 | "ret2" -> SRet2
   | "retdefer" -> SRetDefer | "arrinit" -> SArrInit | "recinit" -> SRecInit | "recarrinit" -> SRecArrInit
   | "for" -> SFor | "cast" -> SCast | s -> failwith ("site " ^ s)
 
